@@ -40,7 +40,7 @@ pub fn to_java(s: &JS) -> Result<JavaString, String> {
 pub fn from_java(s: &JavaStr) -> JS { cf::project::js(s) }
 pub fn to_string(s: &JS) -> String { s.show() }
 
-fn rej<E: std::fmt::Display>(what: &str, s: &JS) -> impl FnOnce(E) -> AskErr + '_ { move |e| AskErr::Rejected(format!("{what} {:?}: {e}", s.show())) }
+fn rej<'a, E: std::fmt::Display>(what: &'a str, s: &'a JS) -> impl FnOnce(E) -> AskErr + 'a { move |e| AskErr::Rejected(format!("{what} {:?}: {e}", s.show())) }
 fn rem(e: anyhow::Error) -> AskErr { AskErr::Remapper(format!("{e:#}")) }
 fn jv(s: &JS, what: &str) -> Ans<JavaString> { to_java(s).map_err(|e| AskErr::Rejected(format!("{what} {:?}: {e}", s.show()))) }
 
